@@ -240,3 +240,35 @@ Arguments spoly : clear implicits.
 Arguments svalue : clear implicits.
 Arguments sopdef : clear implicits.
 Arguments sextension : clear implicits.
+
+(* ---- payload instance used by the correspondence runs and the regenerated data: JSON trees
+   (strings and float literals interned by the harness), identity codec ---- *)
+Inductive json :=
+| JNull | JBool (b : bool) | JInt (z : Z) | JFloat (repr : name) | JStr (s : name)
+| JArr (l : list json) | JObj (kv : list (name * json)).
+Fixpoint json_eqb (a b : json) {struct a} : bool :=
+  match a, b with
+  | JNull, JNull => true
+  | JBool x, JBool y => Bool.eqb x y
+  | JInt x, JInt y => Z.eqb x y
+  | JFloat x, JFloat y => N.eqb x y
+  | JStr x, JStr y => N.eqb x y
+  | JArr l1, JArr l2 =>
+      (fix arr (l1 l2 : list json) {struct l1} : bool :=
+         match l1, l2 with
+         | [], [] => true
+         | x :: r, y :: s => json_eqb x y && arr r s
+         | _, _ => false
+         end) l1 l2
+  | JObj l1, JObj l2 =>
+      (fix obj (l1 l2 : list (name * json)) {struct l1} : bool :=
+         match l1, l2 with
+         | [], [] => true
+         | (k, x) :: r, (k', y) :: s => N.eqb k k' && json_eqb x y && obj r s
+         | _, _ => false
+         end) l1 l2
+  | _, _ => false
+  end.
+Definition jext := sextension json json json.
+Definition jcmd := cmd json json json.
+Definition jid (x : json) : json := x.
